@@ -238,7 +238,7 @@ func runC02(c *fw.Ctx) {
 		}
 		c.Sample(stream, 1, map[string]interface{}{"stream": stream, "label": label, "diagnostic": o.Short(), "quote": o.Quote})
 	}
-	streams := map[string]bool{"corpus": true, "ctx": true, "variants": true, "paste": true, "include": true, "include-graph": true, "options": true, "names": true, "schema-rules": true}
+	streams := map[string]bool{"corpus": true, "ctx": true, "variants": true, "paste": true, "include": true, "include-graph": true, "options": true, "names": true, "schema-rules": true, "nul-places": true}
 	if !c.Quick() {
 		streams["scan"] = true
 	}
